@@ -127,6 +127,15 @@ M = {
   ('partial result not finalized', 'sourcer/translator.py', "    for node in visit(nodes):\n        pos_info = node._metadata.position_info", "    for node in (visit(nodes) if not (fullparse and pos < len(text)) else ()):\n        pos_info = node._metadata.position_info"),
   ('finalize skips tuples', 'sourcer/translator.py', "        if isinstance(node, (list, tuple)):\n            stack.extend(reversed(node))\n\n        elif isinstance(node, dict):\n            stack.extend(reversed(node.values()))", "        if isinstance(node, list):\n            stack.extend(reversed(node))\n\n        elif isinstance(node, dict):\n            stack.extend(reversed(node.values()))"),
  ],
+ 'C07': [
+  ('memo store removed', 'sourcer/translator.py', "            stack.pop()\n            memo[key] = result", "            stack.pop()"),
+  ('only successes memoised', 'sourcer/translator.py', "            stack.pop()\n            memo[key] = result", "            stack.pop()\n            if result[0]:\n                memo[key] = result"),
+  ('only failures memoised', 'sourcer/translator.py', "            stack.pop()\n            memo[key] = result", "            stack.pop()\n            if not result[0]:\n                memo[key] = result"),
+  ('memo bounded to 64 entries', 'sourcer/translator.py', "            stack.pop()\n            memo[key] = result", "            stack.pop()\n            if len(memo) >= 64:\n                memo.clear()\n            memo[key] = result"),
+  ('memo copies list results', 'sourcer/translator.py', "        elif result in memo:\n            result = memo[result]", "        elif result in memo:\n            result = memo[result]\n            if isinstance(result[1], list):\n                result = (result[0], list(result[1]), result[2])"),
+  ('zero-width results not memoised', 'sourcer/translator.py', "            stack.pop()\n            memo[key] = result", "            stack.pop()\n            if result[2] != key[2]:\n                memo[key] = result"),
+  ('memo skipped at position 0', 'sourcer/translator.py', "            stack.pop()\n            memo[key] = result", "            stack.pop()\n            if key[2]:\n                memo[key] = result"),
+ ],
  'C03': [
   ('sep drop pop', 'sourcer/expressions/sep.py', "                    with out.IF(staging):\n                        out += staging.pop()\n", "                    pass\n"),
   ('sep require_separator empty', 'sourcer/expressions/sep.py', "Code(f'not {staging} or {saw_separator}')", "Code(f'{saw_separator}')"),
